@@ -4,6 +4,7 @@
 pub mod conv;
 pub mod engine;
 pub mod gen;
+pub mod net;
 pub mod props;
 pub mod refmodel;
 pub mod rt;
